@@ -26,6 +26,7 @@ type runOpts struct {
 	tsMode                               string
 	latency                              bool
 	timers                               bool
+	bulk                                 bool // some reads return hundreds to thousands of records at once
 }
 
 func pickOpts(r *rand.Rand) runOpts {
@@ -61,8 +62,8 @@ type run struct {
 	// cutEpoch: the deploy epoch whose operators acknowledged the id. A restarted job numbers on from the newest
 	// published snapshot, so an id whose checkpoint never completed is used again by the next assembly.
 	cutEpoch map[uint64]int
-	ep   *epochs
-	chunk func(reader, call int) int
+	ep       *epochs
+	chunk    func(reader, call int) int
 }
 
 func (x *run) logf(format string, a ...any) {
@@ -123,6 +124,9 @@ func newRun(c *lib.Ctx, o runOpts) *run {
 	chunkSeed := r.Int63()
 	x.chunk = func(reader, call int) int {
 		h := lib.HashParts("chunk", chunkSeed, reader, call)
+		if o.bulk && h[1]%3 == 0 {
+			return 300 + (int(h[2])*256+int(h[3]))%2200 // one read of 300..2500 records
+		}
 		return int(h[0]%8) % 6 // 0..5 records per read, including empty reads
 	}
 	x.src = cluster.NewVSource(o.splits, o.perSplit, o.tsMode, x.chunk)
@@ -131,6 +135,11 @@ func newRun(c *lib.Ctx, o runOpts) *run {
 		TargetFileSize: uint64(lib.Pick(r, []int{400, 1 << 20})), L0TableNumCompactionTrigger: lib.Pick(r, []int{1, 2, 4}),
 		TuneCompactor: true, MaxSizeAmplificationPercent: lib.Pick(r, []int{0, 50, 200}), SmallestLevelSize: int64(lib.Pick(r, []int{400, 256 << 20})), LevelSizeMultiplier: 10,
 		WatermarkIntervalNanos: int64(lib.Pick(r, []int{1, 2, 5})) * int64(time.Millisecond),
+	}
+	if o.bulk {
+		// thousands of records per case: with a 300-byte memtable every state read would scan hundreds of table
+		// files; the bulk cases are about the cut, not the LSM
+		x.tun.MemTableSize, x.tun.MaxWALSize, x.tun.TargetFileSize = 1<<20, 1<<20, 1<<20
 	}
 	vhook.SetTuning(&x.tun)
 	seed := c.Seed*1000 + int64(c.Index)
@@ -167,7 +176,9 @@ func newRun(c *lib.Ctx, o runOpts) *run {
 	// M4: freeze the shadow of the acknowledging operator's keys at the instant of its ack
 	x.cl.OnOpAck = func(a cluster.OpAck, w *cluster.Worker) {
 		rng := partitioning.KeyGroupRange{Start: a.Start, End: a.End}
-		snap := w.H.ShadowSnapshot(func(k []byte) bool { return rng.IncludesKeyGroup(partitioning.KeyGroup(ophar.KeyGroupOf(k, o.keyGroups))) })
+		snap := w.H.ShadowSnapshot(func(k []byte) bool {
+			return rng.IncludesKeyGroup(partitioning.KeyGroup(ophar.KeyGroupOf(k, o.keyGroups)))
+		})
 		g := 0
 		if x.ep != nil {
 			x.ep.mu.Lock()
@@ -260,24 +271,38 @@ func (x *run) waitCaughtUp() {
 // Returns nil when nothing was published within the bound (the caller decides what that means).
 func (x *run) checkpoint(wait time.Duration) *snapshotpb.JobCheckpoint {
 	before := len(x.cl.PublishedSnapshots())
+	startsBefore := len(x.cl.StartCheckpoints())
 	deadline := time.Now().Add(wait)
-	ticked := false
+	var wantID uint64
+	var lastTick time.Time
 	for time.Now().Before(deadline) {
-		if !ticked {
-			ticked = x.cl.TickCheckpoint()
-			if ticked {
-				x.logf("checkpoint tick")
+		if wantID == 0 {
+			// The tick starts a checkpoint unless an earlier one is still pending (the job then retries later):
+			// keep ticking until the runners were asked for a new id, and wait for the publication of THAT id.
+			for _, s := range x.cl.StartCheckpoints()[startsBefore:] {
+				if s.ID > wantID {
+					wantID = s.ID
+				}
+			}
+			if wantID == 0 && time.Since(lastTick) > 2*time.Millisecond {
+				if x.cl.TickCheckpoint() {
+					if lastTick.IsZero() {
+						x.logf("checkpoint tick")
+					}
+					lastTick = time.Now()
+				}
 			}
 		}
-		if pubs := x.cl.PublishedSnapshots(); len(pubs) > before {
-			snap, err := x.cl.ReadSnapshot(pubs[len(pubs)-1])
-			if err != nil {
-				// the file may already have been superseded; take what the log says
-				time.Sleep(200 * time.Microsecond)
-				continue
+		if wantID != 0 {
+			pubs := x.cl.PublishedSnapshots()
+			for _, p := range pubs[min(before, len(pubs)):] {
+				snap, err := x.cl.ReadSnapshot(p)
+				if err != nil || snap.Id < wantID {
+					continue // superseded meanwhile, or the late publication of an earlier checkpoint
+				}
+				x.logf("job checkpoint %d published", snap.Id)
+				return snap
 			}
-			x.logf("job checkpoint %d published", snap.Id)
-			return snap
 		}
 		time.Sleep(200 * time.Microsecond)
 	}
